@@ -26,7 +26,8 @@ def load_rules(prop: str):
 
     try:
         importlib.import_module(f"sa.rules.{prop.lower()}")
-        importlib.import_module("sa.rules.shared")
+        shared = importlib.import_module("sa.rules.shared")
+        shared.register_shared(prop)
     except ModuleNotFoundError as e:
         if e.name == f"sa.rules.{prop.lower()}":
             return []
